@@ -217,6 +217,20 @@ AddAll(r, ids) ==
 ForkPost(s, hx, c, lg, anc, ids) ==
   AddAll(RemoveDownTo([store |-> s, hidx |-> hx, count |-> c, last |-> lg], anc), ids)
 
+(* the same with the predecessor each group of the fork NAMES (a fork received from a peer need not
+   be a line: a group may name the common ancestor or any other group as its predecessor).  A group
+   is linked only if the predecessor it names is the current last group; the first refusal stops
+   the switch.  pres[i] = 98: the group names the group before it in the fork (the ancestor for the
+   first). *)
+RECURSIVE AddAllP(_, _, _, _)
+AddAllP(r, ids, pres, prev) ==
+  IF ids = <<>> THEN r
+  ELSE LET named == IF Head(pres) = 98 THEN prev ELSE Head(pres) IN
+       IF r.store[Head(ids)].present \/ r.count >= MaxCount \/ named # r.last THEN r
+       ELSE AddAllP(AddPost(r.store, r.hidx, r.count, r.last, Head(ids)), Tail(ids), Tail(pres), Head(ids))
+ForkPostP(s, hx, c, lg, anc, ids, pres) ==
+  AddAllP(RemoveDownTo([store |-> s, hidx |-> hx, count |-> c, last |-> lg], anc), ids, pres, anc)
+
 (* Overlapping calls.  AddGroup(g) runs in two critical sections: (1) without the lock: the id
    must not be on the chain yet (Has), then consensusHelper.CheckGroup - where a call can stay
    for a long time; (2) under chain.lock: the predecessor named by the group must be the last
